@@ -35,7 +35,7 @@ pub fn create_promise_constructor(interp: &mut Interpreter) -> Gc<JsObject> {
     interp
         .promise_prototype
         .borrow_mut()
-        .set_property(constructor_key, JsValue::Object(ctor.clone()));
+        .define_builtin_property(constructor_key, JsValue::Object(ctor.clone()));
 
     // Static methods
     interp.register_method(&ctor, "resolve", promise_resolve_static, 1);
